@@ -32,7 +32,7 @@ TEMPLATES = {
 }
 LEVELS = {
     'quick': [
-        {'name': 'L1-N3-M2-K2', 'N': 3, 'M': 2, 'K': 2, 'variants': 'all', 'budget_s': 90},
+        {'name': 'L1-N3-M2-K1', 'N': 3, 'M': 2, 'K': 1, 'variants': 'all', 'budget_s': 90},
         {'name': 'L1b-N3-M3-K1-prio', 'N': 3, 'M': 3, 'K': 1, 'nevents': 1, 'variants': 'few', 'prio': 1,
          'kinds': 'bco', 'targets': 'self_none', 'budget_s': 90},
         {'name': 'L2-N4-M1-K2', 'N': 4, 'M': 1, 'K': 2, 'variants': 'few', 'budget_s': 120},
